@@ -1040,3 +1040,42 @@ def r_gravsoft_angular(cx):
               "reaches %s (longitudes 0..360, say) is not converted to radians, and its corrections are used as if in "
               "metres" % (">" if op in ("Gt", "Le") else ">=", T, "beyond %s" % T if T < 360 else "360"), cx.where(sw["span"]))
     cx.count("R-GRAVSOFT-ANGULAR", "thresholds", n)
+
+
+@rule("R-HEADER-PER-NUMBER", ["C15", "C08"])
+def r_header_per_number(cx):
+    """The header of a Gravsoft grid is the first six numbers of the file, wherever the line breaks fall: whether a number
+    belongs to the header is decided number by number. In gravsoft_grid_reader the `header.len() < 6` test that sends a
+    number to the header is evaluated in the same (innermost) loop that handles the number - not once per line, which
+    would swallow the node values that share a line with the end of the header."""
+    import guards
+    name = "grid::gravsoft_grid_reader"
+    if not cx.f.has_fn(name):
+        cx.ob("R-HEADER-PER-NUMBER", "anchor", False, "anchor-missing: %s" % name)
+        return
+    f = cx.f.fn(name)
+    n = 0
+    for bb, t in f.calls():
+        if not ((f.callee(t) or "").endswith("Vec::<T, A>::push") and (t.get("callee_full") or "").startswith("std::vec::Vec::<f64>")):
+            continue
+        lp = f.innermost_loop(bb)
+        if lp is None:
+            continue
+        recv = mir.strip_refs(f.arg_terms(bb)[0])
+        for at, tv in guards.branch_facts(f, bb):
+            at = mir.strip_refs(at)
+            if not (at[0] == "bin" and at[1] in ("Lt", "Le", "Ge", "Gt", "Eq", "Ne")):
+                continue
+            l = mir.strip_refs(at[2])
+            if not (l[0] == "call" and isinstance(l[1], str) and l[1].endswith("::len") and isinstance(l[3], int)):
+                continue
+            n += 1
+            inside = l[3] in lp.body
+            cx.ob("R-HEADER-PER-NUMBER", "gravsoft/header-test%d" % (n - 1), inside,
+                  "the header-or-value decision is taken for each number" if inside else
+                  "gravsoft_grid_reader decides once per line whether its numbers belong to the header: node values on the "
+                  "line that completes the header are stored as header numbers and the grid is rejected as incomplete",
+                  cx.where(f.term(l[3])["span"]))
+    if n == 0:
+        cx.ob("R-HEADER-PER-NUMBER", "none", True, "no length test guards the header stores in a loop", nontrivial=False)
+    cx.count("R-HEADER-PER-NUMBER", "header_tests", n)
